@@ -24,6 +24,9 @@ ONLY = None
 
 
 def relevant(patch):
+    if ONLY == ["target"]:
+        meta = json.load(open(os.path.join(os.path.dirname(patch), "meta.json")))
+        return [meta["breaks_property"]]
     if ONLY:
         return list(ONLY)
     files = sorted(set(re.findall(r"^\+\+\+ b/(\S+)", open(patch).read(), re.M)))
